@@ -3,6 +3,7 @@ import Mimic.Extracted.Params
 import MimicProofs.ParsersCode
 import MimicProofs.ExecuteCode
 import MimicProofs.HandlersCode
+import MimicProofs.CommandLoop
 /-!
 # C06 — Prepared-statement parameters are bound as data, never as SQL
 -/
@@ -232,6 +233,29 @@ theorem execute_discards_long_data_code (coldef : Nat → Nat → Mimic.Py.Bytes
     ∃ st, Mimic.Py.dictGet c'.prepared_stmts x.stmt.stmt_id = some st ∧ st.param_buffers = none ∧ st.sql = x.stmt.sql ∧
       st.num_params = x.stmt.num_params :=
   handle_stmt_execute_discards_long_data coldef parse app c data x hp c' hrun
+
+open MimicProofs.CommandLoop Mimic.Py in
+/-- **A whole COM_STMT_PREPARE exchange on the code** (one iteration of the generated command loop on `0x16 · text`): the statement
+    registered is the decoded text with the placeholder count `count_params` gives it (the `num_params` the prepare-OK announces
+    and the execute consumes: `code_prepare_announces_placeholders`), under the id the response carries; the block is written and
+    drained once; a text that does not decode gets exactly one ERR and registers nothing; the loop goes on. -/
+theorem code_prepare_exchange (E : Mimic.Py.Env S) (cp : S → Nat) (pc : Nat → Mimic.Py.Bytes) (coldef : Nat → Nat → Mimic.Py.Bytes)
+    (parse : Connection S → Mimic.Py.Bytes → Option (ComStmtExecute S)) (app : S → Option (ResultSet S))
+    (ur : S → Bool) (fls : Mimic.Extracted.ParsersCode.ComFieldList S → S) (fcd : Nat → S → Mimic.Py.Bytes → Mimic.Py.Bytes)
+    (other : Nat → Connection S → Mimic.Py.Bytes → Except (Connection S) (Connection S)) (err : Connection S → Mimic.Py.Bytes) (af : Nat → Connection S → Mimic.Py.Bytes → Option (Connection S))
+    (c : Connection S) (rest : Mimic.Py.Bytes) :
+    let c1 : Connection S := { c with _executing := true }
+    match E.decode c.client_charset rest with
+    | none => command_step E cp pc coldef parse app ur fls fcd other err af c (22 :: rest)
+        = ({ c with _executing := false, out := c.out ++ [Ev.write (err { c with _executing := false }) true, Ev.reset_seq] }, true)
+    | some sql =>
+      let st : PreparedStatement S := { stmt_id := c.prepared_stmt_seq.value, sql := sql, num_params := cp sql, param_buffers := none, cursor := none }
+      ∃ (c' : Connection S) (w f : Nat), command_step E cp pc coldef parse app ur fls fcd other err af c (22 :: rest)
+          = ({ c' with _executing := false, out := c'.out ++ [Ev.reset_seq] }, true) ∧
+        c'.prepared_stmts = dictSet c.prepared_stmts c.prepared_stmt_seq.value st ∧
+        c'.prepared_stmt_seq = (seq_next c.prepared_stmt_seq).2 ∧
+        c'.out = c.out ++ (prepareResponse pc c1 st w f).map (fun p => Ev.write p false) ++ [Ev.drain] :=
+  prepare_exchange E cp pc coldef parse app ur fls fcd other err af c rest
 
 end handlers
 
